@@ -179,6 +179,43 @@ def lattice_c03(ctx):
         why = _judge(vals, ubl, 'sig_relaxation of e^x2 + .1 e^-x2 + .5 e^x1 over the lens {|x| <= 1, |x - (1,0)| <= 1}', [list(vals)], [])
         if why:
             return why, nsolves
+        # ONE set written in the ways a user writes it (number on the left of a minus sign, array minus matrix product, reversed comparison,
+        # exponents with constant shifts against rescaled weights): every description gives the same bound, below f at points of the set
+        ft = y2[0] ** -1 + y2[1] ** -1 + 0.25 * y2[0] * y2[1]
+        Am = np.array([[1.0, 1.0]])
+        def tri_dom(form):
+            xt = cl.Variable(shape=(2,), name='lat_tri_x_' + form)
+            c_ = {'x0 + x1 <= 1': lambda: [xt[0] + xt[1] <= 1], '1 - x0 - x1 >= 0': lambda: [1 - xt[0] - xt[1] >= 0],
+                  'b - A @ x >= 0': lambda: [np.array([1.0]) - Am @ xt >= 0], '1.0 >= x0 + x1': lambda: [1.0 >= xt[0] + xt[1]],
+                  '0 <= 1 - (x0 + x1)': lambda: [0 <= 1.0 - (xt[0] + xt[1])]}[form]()
+            return SigDomain(2, coniclifts_cons=c_ + [xt >= -1])
+        ptt = [np.array([a, b]) for a in np.linspace(-1, 2, 61) for b in np.linspace(-1, 2, 61) if a + b <= 1]
+        ubt = min(float(ft(p_)) for p_ in ptt)
+        vals = {}
+        for form in ('x0 + x1 <= 1', '1 - x0 - x1 >= 0', 'b - A @ x >= 0', '1.0 >= x0 + x1', '0 <= 1 - (x0 + x1)'):
+            vals[('dual', form)] = _solve(lambda: ss.sig_relaxation(ft, tri_dom(form), 'dual'))
+            nsolves += 1
+        vals[('primal', 'x0 + x1 <= 1')] = _solve(lambda: ss.sig_relaxation(ft, tri_dom('x0 + x1 <= 1'), 'primal'))
+        vals[('primal', '1 - x0 - x1 >= 0')] = _solve(lambda: ss.sig_relaxation(ft, tri_dom('1 - x0 - x1 >= 0'), 'primal'))
+        nsolves += 2
+        why = _judge(vals, ubt, 'sig_relaxation of e^-x1 + e^-x2 + .25 e^(x1+x2) over {x1 + x2 <= 1, x >= -1} written in five ways', [list(vals)], [])
+        if why:
+            return why, nsolves
+        def exp_dom(form):
+            xe_ = cl.Variable(shape=(2,), name='lat_exps_x_' + form)
+            if form == 'shifted exponents':
+                c_ = [cl.weighted_sum_exp(np.array([1.0, 1.0]), xe_ + np.array([0.5, -1.0])) <= 3]
+            else:
+                c_ = [cl.weighted_sum_exp(np.array([math.exp(0.5), math.exp(-1.0)]), xe_) <= 3]
+            return SigDomain(2, coniclifts_cons=c_ + [xe_ >= -2])
+        pte = [np.array([a, b]) for a in np.linspace(-2, 1, 61) for b in np.linspace(-2, 3, 101) if math.exp(a + 0.5) + math.exp(b - 1.0) <= 3]
+        fe = y2[0] ** -1 + y2[1] ** -1 + 0.1 * y2[0] + 0.1 * y2[1]
+        ube = min(float(fe(p_)) for p_ in pte)
+        vals = {(fm, form): _solve(lambda: ss.sig_relaxation(fe, exp_dom(form), fm)) for fm in ('primal', 'dual') for form in ('shifted exponents', 'rescaled weights')}
+        nsolves += 4
+        why = _judge(vals, ube, 'sig_relaxation over {exp(x1 + .5) + exp(x2 - 1) <= 3, x >= -2} written with shifted exponents / rescaled weights', [list(vals)], [])
+        if why:
+            return why, nsolves
     return None, nsolves
 
 
